@@ -62,7 +62,7 @@ def run(ctx):
     drv = ctx.go_build("ixbuf")
     trace = ctx.work + "/ixbuf.ndjson"
     #        nsmall nsized nbig nchain nshaped
-    args = [150, 80, 10, 80, 80] if ctx.thorough() else [24, 10, 1, 10, 10]
+    args = [150, 80, 10, 80, 160] if ctx.thorough() else [24, 10, 1, 10, 20]
     rc, out, summ = ctx.driver(drv, [trace] + args, timeout=900)
     if rc != 0:
         raise vlib.Infra("ixbuf driver rc=%d: %s" % (rc, out[-2000:]))
